@@ -34,6 +34,9 @@ func (g *Gen) nl() string {
 
 func (g *Gen) pick(xs []string) string { return xs[g.R.Intn(len(xs))] }
 
+// Pick3 returns one of the given strings.
+func (g *Gen) Pick3(xs ...string) string { return xs[g.R.Intn(len(xs))] }
+
 func (g *Gen) name() string {
 	r := g.R
 	switch x := r.Intn(100); {
